@@ -52,6 +52,7 @@ func catalogue(method string) []string {
 		out = append(append(append(out, sigMuts...), sigMuts...), sthMuts...)
 	case "AddChain", "AddPreChain":
 		out = append(append(append(out, sigMuts...), sctMuts...), sctMuts...)
+		out = append(out, "busy", "busy", "busy", "retry-after")
 	default:
 		out = append(out, arrMuts...)
 	}
@@ -79,7 +80,10 @@ func genStep(t *rapid.T, method string) Mut {
 	if !retrying(method) {
 		return Mut{Kind: "redirect", N: rapid.IntRange(0, 4).Draw(t, "rcode"), M: rapid.IntRange(0, 2).Draw(t, "rhop")}
 	}
-	switch rapid.IntRange(0, 6).Draw(t, "step") {
+	switch rapid.IntRange(0, 10).Draw(t, "step") {
+	case 7, 8, 9, 10:
+		// a busy server: 503 / 429 with a Retry-After of 0, negative, past, present, garbage, small ...
+		return Mut{Kind: "busy", N: rapid.IntRange(0, 1).Draw(t, "busy"), M: rapid.IntRange(0, len(retryAfterVals)-1).Draw(t, "retryafter")}
 	case 0:
 		return Mut{Kind: "status", N: 408}
 	case 1:
@@ -273,13 +277,13 @@ func asn1Chain(ders [][]byte) []ct.ASN1Cert {
 
 const logURI = "http://log.example/prefix"
 
-func doCall(ctx context.Context, s *scene, rt *scriptRT) (o outcome) {
-	defer func() {
-		if r := recover(); r != nil {
-			o.panicked = r
-		}
-	}()
-	c := s.c
+type clients struct {
+	lc    *client.LogClient
+	adder client.AddLogClient
+}
+
+// newClients builds the client(s) under test: they hold the log key.
+func newClients(s *scene, rt *scriptRT) clients {
 	hc := &http.Client{Transport: rt}
 	lc, err := client.New(logURI, hc, jsonclient.Options{PublicKeyDER: s.key.SPKI, Logger: nopLogger{}})
 	if err != nil {
@@ -288,14 +292,25 @@ func doCall(ctx context.Context, s *scene, rt *scriptRT) (o outcome) {
 	if lc.Verifier == nil {
 		panic("harness: client holds no verifier")
 	}
-	var adder client.AddLogClient = lc
-	if c.Temporal {
+	cl := clients{lc: lc, adder: lc}
+	if s.c.Temporal {
 		tlc, err := client.NewTemporalLogClient(&configpb.TemporalLogConfig{Shard: []*configpb.LogShardConfig{{Uri: logURI, PublicKeyDer: s.key.SPKI}}}, hc)
 		if err != nil {
 			panic(fmt.Sprintf("harness: NewTemporalLogClient: %v", err))
 		}
-		adder = tlc
+		cl.adder = tlc
 	}
+	return cl
+}
+
+func doCall(ctx context.Context, s *scene, cl clients) (o outcome) {
+	defer func() {
+		if r := recover(); r != nil {
+			o.panicked = r
+		}
+	}()
+	c := s.c
+	lc, adder := cl.lc, cl.adder
 	switch c.Method {
 	case "GetSTH":
 		o.sth, o.err = lc.GetSTH(ctx)
@@ -435,36 +450,49 @@ func checkClient(t *testing.T, c Case) (v harness.Verdict) {
 	v.NonTrivial = nm >= 1
 
 	var out outcome
+	var cl clients
 	res := vt.Run(t, 12*time.Hour, func(ctx context.Context) {
 		cctx, cancel := context.WithCancel(ctx)
 		defer cancel()
 		rt.cancel = cancel
-		out = doCall(cctx, s, rt)
+		if p := recovered(func() { cl = newClients(s, rt) }); p != nil {
+			out.panicked = p
+			return
+		}
+		out = doCall(cctx, s, cl)
 	})
 	if res.TimedOut {
 		v.Failf("no-return", "%s did not return within 12 h of virtual time (caller deadline %d s)", c.Method, c.DeadlineS)
 		return v
 	}
+	judgeOutcome(t, &v, s, out, rt.log, rt.n > attemptCap, nm)
+	return v
+}
+
+// judgeOutcome is the per-call oracle: s describes the call and its truthful answer, log what the round
+// tripper served during the call, nm the number of mutations (0 = everything truthful).
+func judgeOutcome(t *testing.T, v *harness.Verdict, s *scene, out outcome, log []served, capHit bool, nm int) {
+	c := s.c
 	if out.panicked != nil {
 		if ps, ok := out.panicked.(string); ok && strings.HasPrefix(ps, "harness:") {
 			t.Fatalf("%s", ps)
 		}
 		if c.EmptyChain && c.Method == "AddChain" {
-			v.Failf("addchain-empty-chain-panic", "AddChain with an empty chain panicked once the server answered %d: %v", rt.log[len(rt.log)-1].b.Status, out.panicked)
-			return v
+			v.Failf("addchain-empty-chain-panic", "AddChain with an empty chain panicked once the server answered %d: %v", log[len(log)-1].b.Status, out.panicked)
+			return
 		}
 		v.Failf("client-panic", "%s panicked: %v", c.Method, out.panicked)
-		return v
+		return
 	}
-	if len(rt.log) > 1 {
+	if len(log) > 1 {
 		v.Class("multi-attempt")
 	}
-	if rt.n > attemptCap {
+	if capHit {
 		v.Class("attempt-cap")
 	}
 	var last *built
-	if len(rt.log) > 0 {
-		last = rt.log[len(rt.log)-1].b
+	if len(log) > 0 {
+		last = log[len(log)-1].b
 	}
 
 	if out.err != nil {
@@ -480,11 +508,11 @@ func checkClient(t *testing.T, c Case) (v harness.Verdict) {
 		}
 		if last == nil || last.NetErr {
 			v.Class("error:no-response")
-			return v
+			return
 		}
-		if !s.isFinal(last) || (retrying(c.Method) && rt.log[len(rt.log)-1].method != http.MethodPost) {
+		if !s.isFinal(last) || (retrying(c.Method) && log[len(log)-1].method != http.MethodPost) {
 			v.Class("error:after-retryable")
-			return v
+			return
 		}
 		var re jsonclient.RspError
 		if !errors.As(out.err, &re) {
@@ -494,7 +522,7 @@ func checkClient(t *testing.T, c Case) (v harness.Verdict) {
 			} else {
 				v.Failf("plain-error", "%s was answered %d with %d body bytes but returned %T (%v), not an RspError", c.Method, last.Status, len(last.delivered()), out.err, out.err)
 			}
-			return v
+			return
 		}
 		v.Class("error:rsperror")
 		if re.StatusCode != last.Status || !bytes.Equal(re.Body, last.delivered()) {
@@ -503,7 +531,7 @@ func checkClient(t *testing.T, c Case) (v harness.Verdict) {
 		if re.Err == nil {
 			v.Failf("rsperror-empty", "%s returned an RspError without a cause", c.Method)
 		}
-		return v
+		return
 	}
 
 	// success
@@ -513,15 +541,15 @@ func checkClient(t *testing.T, c Case) (v harness.Verdict) {
 	}
 	if last == nil || last.NetErr {
 		v.Failf("success-without-response", "%s succeeded although no response was delivered", c.Method)
-		return v
+		return
 	}
 	if last.Status != 200 {
 		v.Failf("non-200-accepted", "%s succeeded on status %d", c.Method, last.Status)
-		return v
+		return
 	}
 	if last.ReadErr {
 		v.Failf("partial-body-accepted", "%s succeeded although the body broke after %d bytes", c.Method, last.ReadAt)
-		return v
+		return
 	}
 	body := last.Body
 	okJSON := func(into any) bool {
@@ -540,15 +568,15 @@ func checkClient(t *testing.T, c Case) (v harness.Verdict) {
 	case "GetSTH":
 		var m mSTH
 		if !okJSON(&m) {
-			return v
+			return
 		}
-		s.judgeSTH(&v, out.sth, m)
+		s.judgeSTH(v, out.sth, m)
 	case "AddChain", "AddPreChain":
 		var m mSCT
 		if !okJSON(&m) {
-			return v
+			return
 		}
-		s.judgeSCT(&v, out.sct, m)
+		s.judgeSCT(v, out.sct, m)
 	case "GetSTHConsistency":
 		var m mConsistency
 		if okJSON(&m) && !eqList(out.hashes, m.Consistency) {
@@ -583,7 +611,7 @@ func checkClient(t *testing.T, c Case) (v harness.Verdict) {
 				der, err := base64.StdEncoding.DecodeString(c64)
 				if err != nil {
 					v.Failf("roots-bad-base64-accepted", "GetAcceptedRoots succeeded although certificate %q is not base64", head([]byte(c64), 40))
-					return v
+					return
 				}
 				want = append(want, der)
 			}
@@ -608,7 +636,7 @@ func checkClient(t *testing.T, c Case) (v harness.Verdict) {
 		if okJSON(&m) {
 			if len(out.entries) != len(m.Entries) {
 				v.Failf("value-mismatch:GetEntries", "returned %d entries, body holds %d", len(out.entries), len(m.Entries))
-				return v
+				return
 			}
 			for i, e := range m.Entries {
 				r := refDecodeEntry(e.LeafInput, e.ExtraData)
@@ -628,7 +656,6 @@ func checkClient(t *testing.T, c Case) (v harness.Verdict) {
 			}
 		}
 	}
-	return v
 }
 
 func tail(b []byte, n int) []byte {
